@@ -6,6 +6,7 @@ package main
 
 import (
 	"fmt"
+	"go/token"
 	"go/types"
 	"strings"
 
@@ -154,7 +155,7 @@ func (ex *Exec) callExternal(fr *Frame, name string, sig *types.Signature, recv 
 		s := recv.(*StoreV)
 		k := ex.storeKey(st, s, args[0])
 		v := ex.asBytes(st, args[1])
-		ex.nopanic(st, "store-set-nil", Neq(v, BNil), call.Pos())
+		ex.nopanic(st, "store-set-nil", Neq(v, BNil), posOfCall(call))
 		w := st.worlds[s.World]
 		w.S = Store(w.S, k, v)
 		return one(nil)
@@ -196,18 +197,18 @@ func (ex *Exec) callExternal(fr *Frame, name string, sig *types.Signature, recv 
 	case strings.HasSuffix(short, "Iterator).Next"):
 		it := recv.(*IterV)
 		i := ex.content(st, it.Obj).(*Term)
-		ex.nopanic(st, "iter-next", Lt(i, it.It.N), call.Pos())
+		ex.nopanic(st, "iter-next", Lt(i, it.It.N), posOfCall(call))
 		st.heap[it.Obj.id] = Add(i, IntLit(1))
 		return one(nil)
 	case strings.HasSuffix(short, "Iterator).Key"):
 		it := recv.(*IterV)
 		i := ex.content(st, it.Obj).(*Term)
-		ex.nopanic(st, "iter-key", Lt(i, it.It.N), call.Pos())
+		ex.nopanic(st, "iter-key", Lt(i, it.It.N), posOfCall(call))
 		return one(App(it.It.KeyAt, i))
 	case strings.HasSuffix(short, "Iterator).Value"):
 		it := recv.(*IterV)
 		i := ex.content(st, it.Obj).(*Term)
-		ex.nopanic(st, "iter-value", Lt(i, it.It.N), call.Pos())
+		ex.nopanic(st, "iter-value", Lt(i, it.It.N), posOfCall(call))
 		return one(Select(it.It.Store, App(it.It.KeyAt, i)))
 	case strings.HasSuffix(short, "Iterator).Close"):
 		return one(ErrNil)
@@ -220,16 +221,12 @@ func (ex *Exec) callExternal(fr *Frame, name string, sig *types.Signature, recv 
 		return one(Ite(Eq(BLen(b), IntLit(0)), IntLit(0), DecBE8(b)))
 	case strings.HasSuffix(short, "(binary.bigEndian).Uint64"):
 		b := ex.asBytes(st, args[0])
-		ex.nopanic(st, "be-len", Ge(BLen(b), IntLit(8)), call.Pos())
-		r := DecBE8(b)
-		ex.intRangeDef(st, r, types.Typ[types.Uint64])
-		return one(r)
+		ex.nopanic(st, "be-len", Ge(BLen(b), IntLit(8)), posOfCall(call))
+		return one(DecBE8(b))
 	case strings.HasSuffix(short, "(binary.bigEndian).Uint32"):
 		b := ex.asBytes(st, args[0])
-		ex.nopanic(st, "be-len", Ge(BLen(b), IntLit(4)), call.Pos())
-		r := DecBE4(b)
-		ex.intRangeDef(st, r, types.Typ[types.Uint32])
-		return one(r)
+		ex.nopanic(st, "be-len", Ge(BLen(b), IntLit(4)), posOfCall(call))
+		return one(DecBE4(b))
 	case strings.HasSuffix(short, "(binary.bigEndian).PutUint64"), strings.HasSuffix(short, "(binary.bigEndian).PutUint32"):
 		bs, ok := args[0].(*ByteSlV)
 		if !ok {
@@ -243,7 +240,7 @@ func (ex *Exec) callExternal(fr *Frame, name string, sig *types.Signature, recv 
 			w = 4
 			enc = BE4(args[1].(*Term))
 		}
-		ex.nopanic(st, "be-len", Ge(BLen(old), IntLit(w)), call.Pos())
+		ex.nopanic(st, "be-len", Ge(BLen(old), IntLit(w)), posOfCall(call))
 		st.heap[bs.Obj.id] = Cat(enc, bslice(old, IntLit(w), BLen(old)))
 		return one(nil)
 	case short == "types.FormatTimeBytes":
@@ -311,6 +308,13 @@ func (ex *Exec) callExternal(fr *Frame, name string, sig *types.Signature, recv 
 }
 
 func recvIsLogOnly(v Val) bool { return false }
+
+func posOfCall(call *ssa.Call) token.Pos {
+	if call == nil {
+		return token.NoPos
+	}
+	return call.Pos()
+}
 
 func isNilArg(v Val) bool {
 	if v == nil {
@@ -523,8 +527,20 @@ func (ex *Exec) unmarshal(st *State, short, method string, sig *types.Signature,
 	s := sortOf(et)
 	okk := PBOk(tag, s, bz)
 	dec := PBDec(tag, s, bz)
+	if codec == "pb" && bz.Op != "pb" {
+		// proto3: empty / nil input decodes to the zero message
+		isNil := Eq(bz, BNil)
+		okk = Or(isNil, okk)
+		dec = Ite(isNil, zeroTerm(et), dec)
+	}
+	if fromStore(bz) {
+		// W (DESIGN 2.3): values read from the store decode with the codec of their reader; the codec-consistency
+		// sweep (C13) checks that every family is written with the codec it is read with.
+		st.AssumeDef(okk)
+		ex.assumed["W: stored values decode with their reader's codec (codec-consistency sweep)"]++
+	}
 	if strings.HasPrefix(method, "Must") {
-		pos := call.Pos()
+		pos := posOfCall(call)
 		ex.nopanic(st, "unmarshal", okk, pos)
 		ex.store(st, p, dec, et)
 		return one(nil)
@@ -535,6 +551,17 @@ func (ex *Exec) unmarshal(st *State, short, method string, sig *types.Signature,
 	e := Fresh("err_unmarshal", SErr)
 	st.AssumeDef(Eq(Eq(e, ErrNil), okk))
 	return one(e)
+}
+
+// fromStore: the bytes are (an ite over) direct reads of a store variable.
+func fromStore(b *Term) bool {
+	switch b.Op {
+	case "select":
+		return b.Args[0].Sort == SStore
+	case "ite":
+		return fromStore(b.Args[1]) && fromStore(b.Args[2])
+	}
+	return b == BNil
 }
 
 // ---------------------------------------------------------------- sort.Slice
